@@ -64,6 +64,123 @@ fn world(verif: &Path) -> World {
     World::new(gen::registry(), verif)
 }
 
+pub struct ShardResult {
+    stats: Stats,
+    viols: Vec<(u64, Violation, Value)>,
+    digests: Vec<(u64, u64)>,
+    n: u64,
+    events: u64,
+    samples: Vec<Value>,
+}
+
+fn law_static(s: &str) -> &'static str {
+    for l in ["E1", "E2", "E3", "E4", "D1", "D2", "D3"] {
+        if l == s {
+            return l;
+        }
+    }
+    "??"
+}
+
+impl ShardResult {
+    fn to_json(&self) -> Value {
+        json!({
+            "counters": self.stats.c,
+            "distinct": self.stats.distinct.iter().map(|d| d.to_string()).collect::<Vec<_>>(),
+            "required_panics": self.stats.required_panics,
+            "types_touched": self.stats.types_touched,
+            "viols": self.viols.iter().map(|(run, v, doc)| json!({"run": run, "law": v.law, "ty": v.ty, "module": v.module, "detail": v.detail, "at_event": v.at_event, "doc": doc})).collect::<Vec<_>>(),
+            "digests": self.digests.iter().map(|(i, d)| json!([i, d.to_string()])).collect::<Vec<_>>(),
+            "n": self.n, "events": self.events, "samples": self.samples,
+        })
+    }
+    fn read(path: &Path) -> Option<ShardResult> {
+        let v: Value = serde_json::from_str(&std::fs::read_to_string(path).ok()?).ok()?;
+        let mut stats = Stats::default();
+        for (k, x) in v["counters"].as_object()? {
+            stats.c.insert(k.clone(), x.as_u64()?);
+        }
+        for d in v["distinct"].as_array()? {
+            stats.distinct.insert(d.as_str()?.parse().ok()?);
+        }
+        for (k, x) in v["required_panics"].as_object()? {
+            stats.required_panics.insert(k.clone(), x.as_u64()?);
+        }
+        for t in v["types_touched"].as_array()? {
+            stats.types_touched.insert(t.as_str()?.to_string());
+        }
+        let mut viols = Vec::new();
+        for x in v["viols"].as_array()? {
+            viols.push((
+                x["run"].as_u64()?,
+                Violation { law: law_static(x["law"].as_str()?), ty: x["ty"].as_str()?.to_string(), module: x["module"].as_str()?.to_string(), detail: x["detail"].as_str()?.to_string(), at_event: x["at_event"].as_u64()? as usize },
+                x["doc"].clone(),
+            ));
+        }
+        let mut digests = Vec::new();
+        for d in v["digests"].as_array()? {
+            digests.push((d[0].as_u64()?, d[1].as_str()?.parse().ok()?));
+        }
+        Some(ShardResult { stats, viols, digests, n: v["n"].as_u64()?, events: v["events"].as_u64()?, samples: v["samples"].as_array()?.clone() })
+    }
+}
+
+/// Runs from, from+stride, … < to on the calling thread; every run in a fresh OS thread, so
+/// thread-local state of the code under test cannot leak from one run into the next and a run
+/// is a function of (seed, index) alone.
+fn run_range(w: &Arc<World>, seed: u64, from: u64, to: u64, stride: u64, deadline: Instant) -> ShardResult {
+    let mut r = ShardResult { stats: Stats::default(), viols: Vec::new(), digests: Vec::new(), n: 0, events: 0, samples: Vec::new() };
+    let mut i = from;
+    while i < to {
+        if r.n % 256 == 0 && Instant::now() > deadline {
+            break;
+        }
+        let w2 = w.clone();
+        let one = match std::thread::Builder::new().stack_size(8 << 20).spawn(move || run_one(&w2, seed, i)).map(|h| h.join()) {
+            Ok(Ok(x)) => x,
+            _ => {
+                eprintln!("bufsim: harness error: run {i} could not be executed");
+                std::process::exit(2);
+            }
+        };
+        r.stats.merge(&one.stats);
+        r.digests.push((i, one.digest));
+        r.events += one.events as u64;
+        r.n += 1;
+        if let Some(s) = one.sample {
+            if r.samples.len() < 2 {
+                r.samples.push(s);
+            }
+        }
+        if let Some((v, doc)) = one.violation {
+            if r.viols.len() < 20 {
+                r.viols.push((i, v, doc));
+            }
+        }
+        i += stride;
+    }
+    r
+}
+
+fn shard(args: &[String]) -> i32 {
+    std::panic::set_hook(Box::new(|_| {}));
+    let get = |name: &str| args.iter().position(|a| a == name).and_then(|i| args.get(i + 1)).cloned();
+    let num = |name: &str, d: u64| get(name).and_then(|s| s.parse().ok()).unwrap_or(d);
+    let verif = PathBuf::from(std::env::var("VERIF_DIR").unwrap_or_else(|_| "/verif".into()));
+    let w = Arc::new(world(&verif));
+    let deadline = Instant::now() + std::time::Duration::from_secs(num("--budget-s", 200));
+    let r = run_range(&w, num("--seed", 1), num("--from", 0), num("--to", 0), num("--stride", 1), deadline);
+    match get("--out") {
+        Some(p) => {
+            if std::fs::write(p, r.to_json().to_string()).is_err() {
+                return 2;
+            }
+            0
+        }
+        None => 2,
+    }
+}
+
 fn check(tier: &str) -> i32 {
     let t0 = Instant::now();
     let seed = verif_seed();
@@ -82,43 +199,32 @@ fn check(tier: &str) -> i32 {
     }
     let known = Known::load(&verif);
 
-    let run_range = move |w: Arc<World>, from: u64, to: u64, stride: u64, deadline: Instant| -> (Stats, Vec<(u64, Violation, Value)>, Vec<(u64, u64)>, u64, u64, Vec<Value>) {
-        let mut stats = Stats::default();
-        let mut viols = Vec::new();
-        let mut digests = Vec::new();
-        let mut n = 0u64;
-        let mut events = 0u64;
-        let mut samples = Vec::new();
-        let mut i = from;
-        while i < to {
-            if n % 256 == 0 && Instant::now() > deadline {
-                break;
-            }
-            let r = run_one(&w, seed, i);
-            stats.merge(&r.stats);
-            digests.push((i, r.digest));
-            events += r.events as u64;
-            n += 1;
-            if let Some(s) = r.sample {
-                if samples.len() < 2 {
-                    samples.push(s);
-                }
-            }
-            if let Some((v, doc)) = r.violation {
-                if viols.len() < 20 {
-                    viols.push((i, v, doc));
-                }
-            }
-            i += stride;
-        }
-        (stats, viols, digests, n, events, samples)
+    // fan out over worker PROCESSES (one simulation thread each; every run in a fresh thread):
+    // thread creation from 16 threads of one address space contends on the kernel's mm lock
+    let exe = match std::env::current_exe() {
+        Ok(e) => e,
+        Err(_) => return 2,
     };
-
-    let deadline = Instant::now() + std::time::Duration::from_secs(budget);
-    let mut handles = Vec::new();
+    let shard_dir = PathBuf::from(std::env::var("VERIF_BUILD").unwrap_or_else(|_| verif.join(".build").to_string_lossy().into_owned())).join("scratch").join("bufsim");
+    let _ = std::fs::remove_dir_all(&shard_dir);
+    if std::fs::create_dir_all(&shard_dir).is_err() {
+        return 2;
+    }
+    let mut children = Vec::new();
     for k in 0..nworkers as u64 {
-        let w = w.clone();
-        handles.push(std::thread::Builder::new().stack_size(64 << 20).spawn(move || run_range(w, k, runs, nworkers as u64, deadline)).unwrap());
+        let out = shard_dir.join(format!("shard{k}.json"));
+        let ch = std::process::Command::new(&exe)
+            .args(["shard", "--seed", &seed.to_string(), "--from", &k.to_string(), "--to", &runs.to_string(), "--stride", &nworkers.to_string(), "--budget-s", &budget.to_string(), "--out"])
+            .arg(&out)
+            .stdin(std::process::Stdio::null())
+            .spawn();
+        match ch {
+            Ok(c) => children.push((out, c)),
+            Err(e) => {
+                eprintln!("bufsim: harness error: cannot spawn shard: {e}");
+                return 2;
+            }
+        }
     }
     let mut stats = Stats::default();
     let mut viols: Vec<(u64, Violation, Value)> = Vec::new();
@@ -126,35 +232,25 @@ fn check(tier: &str) -> i32 {
     let mut done = 0u64;
     let mut events = 0u64;
     let mut samples = Vec::new();
-    for h in handles {
-        match h.join() {
-            Ok((s, v, d, n, e, sm)) => {
-                stats.merge(&s);
-                viols.extend(v);
-                digests.extend(d);
-                done += n;
-                events += e;
-                samples.extend(sm);
+    for (out, mut c) in children {
+        let ok = c.wait().map(|s| s.success()).unwrap_or(false);
+        let sr = if ok { ShardResult::read(&out) } else { None };
+        match sr {
+            Some(r) => {
+                stats.merge(&r.stats);
+                viols.extend(r.viols);
+                digests.extend(r.digests);
+                done += r.n;
+                events += r.events;
+                samples.extend(r.samples);
             }
-            Err(_) => {
-                eprintln!("bufsim: harness error: worker thread panicked");
+            None => {
+                eprintln!("bufsim: harness error: shard {} failed", out.display());
                 return 2;
             }
         }
     }
-    // determinism self-check: the first runs again, on one thread
-    let sc = env_u64("VERIF_SELFCHECK_RUNS", if thorough { 20_000 } else { 2_000 }).min(runs);
-    {
-        let (_, _, d2, _, _, _) = run_range(w.clone(), 0, sc, 1, Instant::now() + std::time::Duration::from_secs(600));
-        for (i, dg) in d2 {
-            if let Some(a) = digests.get(&i) {
-                if *a != dg {
-                    eprintln!("bufsim: harness error: run {i} is not deterministic ({a:x} vs {dg:x})");
-                    return 2;
-                }
-            }
-        }
-    }
+    samples.truncate(3);
     viols.sort_by_key(|v| v.0);
     let mut reported: Vec<(Violation, PathBuf)> = Vec::new();
     let mut known_hits: BTreeSet<String> = BTreeSet::new();
@@ -177,6 +273,39 @@ fn check(tier: &str) -> i32 {
         reported.push((v.clone(), path));
         if reported.len() >= 12 {
             break;
+        }
+    }
+    // determinism self-check: the first runs again, on one thread. Violations take precedence:
+    // a change that makes results depend on process-global history shows up as violations AND as
+    // run-to-run divergence, and must be reported as the former.
+    let sc = env_u64("VERIF_SELFCHECK_RUNS", if thorough { 20_000 } else { 2_000 }).min(runs);
+    if reported.is_empty() {
+        let r2 = run_range(&w, seed, 0, sc, 1, Instant::now() + std::time::Duration::from_secs(600));
+        let (v2, d2) = (r2.viols, r2.digests);
+        if v2.is_empty() {
+            for (i, dg) in d2 {
+                if let Some(a) = digests.get(&i) {
+                    if *a != dg {
+                        eprintln!("bufsim: harness error: run {i} is not deterministic ({a:x} vs {dg:x}) and no law violation explains it");
+                        return 2;
+                    }
+                }
+            }
+        } else {
+            for (run, v, doc) in &v2 {
+                if known.matches(v).is_some() {
+                    continue;
+                }
+                let path = out_dir.join("replays").join(format!("C18-{seed}-{run}.json"));
+                let mut doc = doc.clone();
+                doc["replay"] = json!(format!("bin/check C18 --replay {}", path.display()));
+                doc["note"] = json!("found by the single-threaded re-execution only: the violation depends on process-global history across runs");
+                let _ = write_json(&path, &doc);
+                reported.push((v.clone(), path));
+                if reported.len() >= 4 {
+                    break;
+                }
+            }
         }
     }
     let wall = t0.elapsed().as_secs_f64();
@@ -299,6 +428,7 @@ fn main() {
             check(&tier)
         }
         Some("replay") if args.len() >= 3 => replay(Path::new(&args[2])),
+        Some("shard") => shard(&args[2..]),
         _ => {
             eprintln!("usage: bufsim check --tier quick|thorough | replay <file>");
             2
